@@ -100,6 +100,8 @@ def main(argv=None) -> int:
     timer = Timer()
     try:
         model = Model(args.repo)
+        from pta import pat as _pat
+        _pat.set_model(model)
         spec = load_spec(prop)
         coll = run_rules(spec, model, args.tier, seed)
 
